@@ -92,6 +92,20 @@ func observe16(c caseC16) (obs []string) {
 		if err == nil {
 			d0, _, _ := dumpOf(p)
 			put("dump", hex.EncodeToString(d0))
+			// the caller may reuse its input buffer after the call returned
+			copy(sharedInput[:], c.Src)
+			if len(c.Src) <= len(sharedInput) {
+				var o2, l2 bytes.Buffer
+				pb, errb := bcl.Parse(sharedInput[:len(c.Src)], "n", bcl.OptOutput(&o2), bcl.OptLogger(&l2))
+				for i := range sharedInput[:len(c.Src)] {
+					sharedInput[i] = 'Z'
+				}
+				if errb == nil {
+					if db, _, _ := dumpOf(pb); !bytes.Equal(db, d0) {
+						put("input-buffer-reuse-changes-the-program", true)
+					}
+				}
+			}
 			out.Reset()
 			a := executeWith(p, &out, &log, bcl.OptStats(true))
 			put("out", a.Out)
@@ -165,6 +179,8 @@ func observe16(c caseC16) (obs []string) {
 	return obs
 }
 
+var sharedInput [1 << 16]byte
+
 // tailStats cuts nothing: statistics are part of both runs alike.
 func tailStats(string) string { return "" }
 
@@ -186,6 +202,9 @@ func noise16(i int) {
 
 func checkC16(c caseC16, repeats int) string {
 	first := digest16(c)
+	if strings.Contains(first, "input-buffer-reuse-changes-the-program=true") {
+		return "a program parsed from a buffer that the caller reuses afterwards differs from the same program parsed from a private copy"
+	}
 	if i := strings.Index(first, "second-execute-differs="); i >= 0 {
 		return "executing the same Prog a second time gives a different outcome: " + clip(first[i:], 600)
 	}
@@ -254,7 +273,8 @@ func genUnmarshal16(t *rapid.T) (caseC16, []string) {
 		}
 		// named inner blocks of one type onto one field
 		for i, n := 0, gen.Weighted(t, "ninner", 40, 30, 30); i < n; i++ {
-			fmt.Fprintf(&sb, "  def inner %s{ a = %d; b_tag = \"v%d\" }\n", []string{`"a" `, `"b" `, ""}[i], i+1, i)
+			fmt.Fprintf(&sb, "  def inner %s{ a = %d; %s = \"v%d\" }\n", []string{`"a" `, `"b" `, ""}[i], i+1,
+				gen.Pick(t, "tagspelling", []string{"b_tag", "b_tag", "btag", "B_Tag", "b_tag_", "bb"}), i)
 			if i > 0 {
 				collide++
 			}
@@ -426,8 +446,33 @@ func TestC16Digest(t *testing.T) {
 	var cases []caseC16
 	must(harness.UnmarshalSafe(b, &cases))
 	ds := make([]string, len(cases))
-	for i, c := range cases {
-		ds[i] = digest16(c)
+	// the outcome must not depend on what was called before: each fresh
+	// process evaluates the cases in another order
+	order := make([]int, len(cases))
+	for i := range order {
+		order[i] = i
+	}
+	switch os.Getenv("GOMAXPROCS") {
+	case "2":
+		for i, j := 0, len(order)-1; i < j; i, j = i+1, j-1 {
+			order[i], order[j] = order[j], order[i]
+		}
+	case "16":
+		for i := range order {
+			order[i] = (i*7919 + 13) % len(order)
+		}
+		seen := map[int]bool{}
+		for _, x := range order {
+			seen[x] = true
+		}
+		if len(seen) != len(order) { // not a permutation for this length: fall back
+			for i := range order {
+				order[i] = (i + len(order)/2) % len(order)
+			}
+		}
+	}
+	for _, i := range order {
+		ds[i] = digest16(cases[i])
 	}
 	ob, _ := json.Marshal(ds)
 	must(os.WriteFile(out, ob, 0o644))
